@@ -68,7 +68,7 @@ Proof.
   destruct (mmono_all p f) as (Mq & Mx & Me & Mr & Mb).
   assert (Hbin : forall inp X stk n pd prev a b op fr s o fr' ms s',
             MInv p rk sB X inp s ->
-            (forall d, In d (expr_reads a ++ expr_reads b) -> StkOk rk stk d /\ (rk d < rk n)%nat) ->
+            (forall d, In d (expr_reads a ++ expr_reads b) -> StkR p stk d /\ (rk d < rk n)%nat) ->
             MFrOk rk s n fr -> (pd = true \/ MPrevOK s prev) -> (pd = true \/ X = []) ->
             mbin p f stk (CQuery n true pd prev) a b op fr s = Ok (o, fr', ms, s') ->
             MInv p rk sB X inp s' /\ MKeeps s s' /\ ms = [] /\ MFrOk rk s' n fr' /\
@@ -92,7 +92,7 @@ Proof.
     - eapply evr_mono; [exact Hev1|]. intros d x0 _ Hx0. apply Hsub2. exact Hx0.
     - intro d. rewrite Hk2, Hk1, in_app_iff. tauto. }
   assert (Hread : forall inp X stk n pd prev n0 fr s x fr1 m1 s1,
-            MInv p rk sB X inp s -> StkOk rk stk n0 -> (rk n0 < rk n)%nat ->
+            MInv p rk sB X inp s -> StkR p stk n0 -> (rk n0 < rk n)%nat ->
             MFrOk rk s n fr -> (pd = true \/ MPrevOK s prev) -> (pd = true \/ X = []) ->
             mread p f stk (CQuery n true pd prev) n0 fr s = Ok (x, fr1, m1, s1) ->
             MInv p rk sB X inp s1 /\ MKeeps s s1 /\ m1 = [] /\ MonoR stk s s1 /\
@@ -117,7 +117,7 @@ Proof.
     - exists (i_tfc i). rewrite fr_obs_reg_lookup, node_eqb_refl. reflexivity. }
   assert (Hgrp : forall inp X stk n pd prev ns acc fr s x fr1 m1 s1,
             MInv p rk sB X inp s ->
-            (forall d, In d ns -> StkOk rk stk d /\ (rk d < rk n)%nat) ->
+            (forall d, In d ns -> StkR p stk d /\ (rk d < rk n)%nat) ->
             MFrOk rk s n fr -> (pd = true \/ MPrevOK s prev) -> (pd = true \/ X = []) ->
             mgroup p f stk (CQuery n true pd prev) ns acc fr [] s = Ok (x, fr1, m1, s1) ->
             MInv p rk sB X inp s1 /\ MKeeps s s1 /\ m1 = [] /\ MFrOk rk s1 n fr1 /\
@@ -173,7 +173,7 @@ Proof.
     assert (Hpd1 : pd = true \/ MPrevOK s1 prev).
     { destruct Hpd as [Hpd|Hpd]; [left; exact Hpd|right; eapply MPrevOK_mono; eauto]. }
     assert (Hstk2 : forall d, In d (expr_reads (if xv =? 0 then e3 else e2)) ->
-              StkOk rk stk d /\ (rk d < rk n)%nat).
+              StkR p stk d /\ (rk d < rk n)%nat).
     { intros d Hd. apply Hstk. apply in_or_app. right. apply in_or_app. destruct (xv =? 0); auto. }
     destruct (meval f stk (CQuery n true pd prev) (if xv =? 0 then e3 else e2) fr1 s1)
       as [[[[y fr2] m2] s2]| | |] eqn:E2; try discriminate.
@@ -424,8 +424,8 @@ Proof.
           (destruct (alookup p n) as [e|]; [|discriminate]); exists e; auto. }
       destruct Hb as [e (He & Hev0)]. clear Ee.
       pose proof (Hkeys n e He) as Hk.
-      assert (Hreads : forall d, In d (expr_reads e) -> StkOk rk (n :: stk) d /\ (rk d < rk n)%nat).
-      { intros d Hd. pose proof (Hrk _ _ _ He Hd). split; [apply StkOk_lower; assumption|assumption]. }
+      assert (Hreads : forall d, In d (expr_reads e) -> StkR p (n :: stk) d /\ (rk d < rk n)%nat).
+      { intros d Hd. pose proof (Hrk _ _ _ He Hd). split; [eapply StkR_push; eauto|assumption]. }
       destruct (IHe inp X (n :: stk) n (x_pedantic c) (fx_prev s n) e fr0 s0 out fr1 marks s1 HI0 Hreads Hfr Hpd Hpx Hev0)
         as (HI1 & K01 & -> & Hfr1 & _ & z & l & -> & Hev & Hkl0).
       assert (Hkl : forall d, In d (map fst (fr_callees fr1)) <-> In d l).
@@ -569,7 +569,7 @@ Proof.
   rewrite caller_node_caller, !fast_path_caller in H.
   set (c' := fq_caller c n s) in *.
   destruct (nmem n stk) eqn:Es.
-  { apply nmem_In in Es. exfalso. eapply StkOk_notin; eauto. }
+  { apply nmem_In in Es. exfalso. eapply (StkOk_notin rk stk n (StkR_ok p rk Hrk stk n Hstk)); eauto. }
   assert (Hroot' : is_cq c' = false -> stk = []) by (unfold c'; rewrite is_cq_caller; exact Hroot).
   assert (Hxm' : XMode c' X) by (apply XMode_caller; exact Hxm).
   assert (Hfo' : c_follow c' = c_follow c) by apply c_follow_caller.
@@ -655,7 +655,7 @@ Proof.
           destruct (IHr inp X stk c' n s1 marks s2 HI1 Hstk Hroot' Hnv Hrp Ep0) as ((Y2 & A1 & A2 & A3 & A4 & A5) & B & ->).
           exists Y2. split; [exact A1|]. split; [rewrite <- Hfo'; exact A2|]. split; [exact A3|]. split; [exact A4|].
           split; [exact A5|]. split; [reflexivity|]. split; [|intros _; exact B].
-          eapply Mr; eauto. eapply StkOk_notin; eauto.
+          eapply Mr; eauto. eapply (StkOk_notin rk stk n (StkR_ok p rk Hrk stk n Hstk)); eauto.
       - assert (Hpx : x_pedantic c' = true \/ X = []).
         { destruct (Hnp1 Hne) as [K|[K|[[K _]|[K _]]]]; auto. destruct K as [j [K _]]. congruence. }
         assert (Hnv : ~ sverified s1 n) by (intros [j [J1 _]]; congruence).
@@ -663,7 +663,7 @@ Proof.
         { repeat split. }
         exists Y2. split; [exact A1|]. split; [rewrite <- Hfo'; exact A2|]. split; [exact A3|]. split; [exact A4|].
         split; [exact A5|]. split; [reflexivity|]. split; [|intros _; exact B].
-        eapply Mx; eauto. eapply StkOk_notin; eauto. }
+        eapply Mx; eauto. eapply (StkOk_notin rk stk n (StkR_ok p rk Hrk stk n Hstk)); eauto. }
     destruct sp; [apply Hgen; [discriminate|exact Ep]|apply Hgen; [discriminate|exact Ep]|].
     (* the backward projections of a node that changed in this epoch *)
     rewrite (Hsb1 eq_refl) in *. clear Hsb1.
